@@ -30,7 +30,8 @@ for d in "$MD"/$PAT; do
   fi
   results=""
   if $applies; then
-    for id in $(seq -w 1 19); do
+    ids="${CHECK_IDS:-$(seq -w 1 19)}"; [ -n "${OWN_ONLY:-}" ] && ids="${prop#C}"
+    for id in $ids; do
       rm -f "$MH"/replays/*.json
       o=$(VERIF_REPO="$WT" "$MH/bin/check" "C$id" quick 2>&1); rc=$?
       sig=$(echo "$o" | grep -m1 'signature=' | sed 's/.*signature=//' | cut -c1-80)
